@@ -203,6 +203,9 @@ def replay_case(case):
         g = cls.construct_array_contraction(shells[k1], shells[k2], coords, q)
         # judge the block after normalisation, on the scale the property names
         nm1, nm2 = norms[k1], norms[k2]
+        if np.shape(g) != raw.shape:
+            V.append("PointChargeIntegral.construct_array_contraction(shell %d, shell %d): shape %s, expected %s" % (k1, k2, np.shape(g), raw.shape))
+            continue
         gN = g * nm1[:, :, None, None, None] * nm2[None, None, :, :, None]
         rN = raw * nm1[:, :, None, None, None] * nm2[None, None, :, :, None]
         rNabs = rawabs * nm1[:, :, None, None, None] * nm2[None, None, :, :, None]
